@@ -268,10 +268,10 @@ fn parse_int_off(s: &str, i: usize) -> yp::R<usize> {
 
 const WS_A: [u8; 5] = [b' ', b'\n', b'/', b'*', b'a'];
 const WS_A2: [u8; 7] = [b' ', b'\n', b'/', b'*', b'a', b'\t', b'\r'];
-const STR_A: [u8; 5] = [b'\'', b'"', b'\\', b'\n', b'a'];
-const ACT_A: [u8; 4] = [b'{', b'}', b'\n', b'a'];
+const STR_A: [u8; 6] = [b'\'', b'"', b'\\', b'\n', b'a', b'\r'];
+const ACT_A: [u8; 5] = [b'{', b'}', b'\n', b'a', b'\r'];
 const EOL_A: [u8; 3] = [b'a', b'\n', b'\r'];
-const COL_A: [u8; 4] = [b':', b'a', b'\n', b' '];
+const COL_A: [u8; 5] = [b':', b'a', b'\n', b' ', b'\r'];
 const INT_A: [u8; 4] = [b'0', b'9', b'5', b'a'];
 const DIG_A: [u8; 10] = [b'0', b'1', b'2', b'3', b'4', b'5', b'6', b'7', b'8', b'9'];
 
@@ -292,6 +292,7 @@ c10_ws!(c10_ws_f4, [], 0, [1, 1, 1, 1], 4, 4, WS_A, 5, false, 6, false);
 c10_ws!(c10_ws_block2, [b'/', b'*'], 2, [1, 1], 2, 4, WS_A, 5, true, 6, false);
 c10_ws!(c10_ws_star2, [b'/', b'*', b'*'], 3, [1, 1], 2, 5, WS_A, 5, true, 7, false);
 c10_ws!(c10_ws_line2, [b'/', b'/'], 2, [1, 1], 2, 4, WS_A, 5, true, 6, false);
+c10_ws!(c10_ws_linemb, [b'/', b'/'], 2, [3, 1, 1], 3, 7, WS_A, 5, true, 9, false);
 c10_ws!(c10_ws_star3, [b'/', b'*', b'*'], 3, [1, 1, 1], 3, 6, WS_A, 5, true, 8, false);
 c10_ws!(c10_ws_block3, [b'/', b'*'], 2, [1, 1, 1], 3, 5, WS_A, 5, true, 7, false);
 c10_ws!(c10_ws_line3, [b'/', b'/'], 2, [1, 1, 1], 3, 5, WS_A, 5, true, 7, false);
@@ -300,19 +301,19 @@ c10_ws!(c10_ws_block4, [b'/', b'*'], 2, [1, 1, 1, 1], 4, 6, WS_A, 5, true, 8, fa
 c10_ws!(c10_ws_f5, [], 0, [1, 1, 1, 1, 1], 5, 5, WS_A, 5, false, 7, false);
 c10_ws!(c10_ws_witness, [b'/', b'*'], 2, [1, 1], 2, 4, WS_A, 5, true, 6, true);
 
-c12_scan!(c12_string_q3, parse_string_off, [b'\''], 1, [1, 1, 1], 3, 4, STR_A, 5, MB_PLAIN, true, 6);
-c12_scan!(c12_string_f3, parse_string_off, [], 0, [1, 1, 1], 3, 3, STR_A, 5, MB_PLAIN, false, 5);
-c12_scan!(c12_string_mb, parse_string_off, [b'"'], 1, [1, 2, 1], 3, 5, STR_A, 5, MB_PLAIN, true, 7);
-c12_scan!(c12_string_q4, parse_string_off, [b'\''], 1, [1, 1, 1, 1], 4, 5, STR_A, 5, MB_PLAIN, true, 7);
-c12_scan!(c12_action_b3, yp::parse_action, [b'{'], 1, [1, 1, 1], 3, 4, ACT_A, 4, MB_PLAIN, true, 6);
-c12_scan!(c12_action_mb, yp::parse_action, [b'{'], 1, [1, 3, 1], 3, 6, ACT_A, 4, MB_PLAIN, true, 8);
-c12_scan!(c12_action_b4, yp::parse_action, [b'{'], 1, [1, 1, 1, 1], 4, 5, ACT_A, 4, MB_PLAIN, true, 7);
+c12_scan!(c12_string_q3, parse_string_off, [b'\''], 1, [1, 1, 1], 3, 4, STR_A, 6, MB_PLAIN, true, 6);
+c12_scan!(c12_string_f3, parse_string_off, [], 0, [1, 1, 1], 3, 3, STR_A, 6, MB_PLAIN, false, 5);
+c12_scan!(c12_string_mb, parse_string_off, [b'"'], 1, [1, 2, 1], 3, 5, STR_A, 6, MB_PLAIN, true, 7);
+c12_scan!(c12_string_q4, parse_string_off, [b'\''], 1, [1, 1, 1, 1], 4, 5, STR_A, 6, MB_PLAIN, true, 7);
+c12_scan!(c12_action_b3, yp::parse_action, [b'{'], 1, [1, 1, 1], 3, 4, ACT_A, 5, MB_PLAIN, true, 6);
+c12_scan!(c12_action_mb, yp::parse_action, [b'{'], 1, [1, 3, 1], 3, 6, ACT_A, 5, MB_PLAIN, true, 8);
+c12_scan!(c12_action_b4, yp::parse_action, [b'{'], 1, [1, 1, 1, 1], 4, 5, ACT_A, 5, MB_PLAIN, true, 7);
 c12_scan!(c12_eol_f3, yp::parse_to_eol, [], 0, [1, 2, 1], 3, 4, EOL_A, 3, MB_LINE, false, 6);
 c12_scan!(c12_eol_mb3, yp::parse_to_eol, [], 0, [1, 3, 1], 3, 5, EOL_A, 3, MB_LINE, false, 7);
 c12_scan!(c12_eol_f4, yp::parse_to_eol, [], 0, [1, 1, 1, 1], 4, 4, EOL_A, 3, MB_LINE, false, 6);
-c12_scan!(c12_colon_f3, yp::parse_to_single_colon, [], 0, [1, 1, 1], 3, 3, COL_A, 4, MB_COLON, false, 5);
-c12_scan!(c12_colon_mb, yp::parse_to_single_colon, [], 0, [1, 3, 1], 3, 5, COL_A, 4, MB_COLON, false, 7);
-c12_scan!(c12_colon_f4, yp::parse_to_single_colon, [], 0, [1, 1, 1, 1], 4, 4, COL_A, 4, MB_COLON, false, 6);
+c12_scan!(c12_colon_f3, yp::parse_to_single_colon, [], 0, [1, 1, 1], 3, 3, COL_A, 5, MB_COLON, false, 5);
+c12_scan!(c12_colon_mb, yp::parse_to_single_colon, [], 0, [1, 3, 1], 3, 5, COL_A, 5, MB_COLON, false, 7);
+c12_scan!(c12_colon_f4, yp::parse_to_single_colon, [], 0, [1, 1, 1, 1], 4, 4, COL_A, 5, MB_COLON, false, 6);
 c12_scan!(c12_int_f3, parse_int_off, [], 0, [1, 1, 1], 3, 3, INT_A, 4, MB_DIGIT, false, 5);
 c12_scan!(c12_int_mb, parse_int_off, [], 0, [1, 1, 2], 3, 4, INT_A, 4, MB_DIGIT, false, 6);
 c12_scan!(c12_int_mb3, parse_int_off, [], 0, [1, 3, 1], 3, 5, INT_A, 4, MB_DIGIT, false, 7);
